@@ -81,6 +81,12 @@ func (s *symFn) emissions() []emission {
 						continue
 					}
 				}
+				if name := freeStoreTarget(x.Addr); name != "" && !(v.Op == "append" && len(v.Kids) >= 2) {
+					// assignment of (a field of) a variable of the enclosing function, from inside a function literal
+					el := &Sym{Op: "struct", Name: "assign", Fields: []string{"value"}, Kids: []*Sym{v}}
+					out = append(out, emission{target: name, elem: el, cond: s.pathCond(b), block: b, pos: s.p.InstrPos(in), sf: s})
+					continue
+				}
 				if name := s.paramFieldTarget(x.Addr); name != "" && !(v.Op == "append" && len(v.Kids) >= 2) {
 					el := &Sym{Op: "struct", Name: "assign", Fields: []string{"value"}, Kids: []*Sym{v}}
 					out = append(out, emission{target: name, elem: el, cond: s.pathCond(b), block: b, pos: s.p.InstrPos(in), sf: s})
@@ -104,6 +110,28 @@ func (s *symFn) emissions() []emission {
 		}
 	}
 	return out
+}
+
+// freeStoreTarget: "freestore:<var>[.<F1>.<F2>]" for a store to (a field of) a captured variable.
+func freeStoreTarget(addr ssa.Value) string {
+	var path []string
+	cur := addr
+	for {
+		fa, ok := cur.(*ssa.FieldAddr)
+		if !ok {
+			break
+		}
+		n, emb := fieldOf(fa.X.Type(), fa.Field)
+		if !emb {
+			path = append([]string{n}, path...)
+		}
+		cur = fa.X
+	}
+	fv, ok := cur.(*ssa.FreeVar)
+	if !ok {
+		return ""
+	}
+	return strings.Join(append([]string{"freestore:" + fv.Name()}, path...), ".")
 }
 
 // paramFieldTarget: "paramfield:<i>.<F1>.<F2>" for a store through a pointer parameter's (nested) field.
@@ -240,7 +268,7 @@ func runE5Row(p *Program, sp *Spec, c *Collector, r *E5Row) bool {
 			c.Ob(r.Props, "E5.key-identity", e5Key(r, ""), Undecided, r.What+": the key leaves the supported fragment ("+w+")", pos, false)
 			return true
 		}
-		got = canonBinders(stripAsserts(got))
+		got = canonBinders(typeSwitchNorm(stripAsserts(got)))
 		for _, fld := range sortedKeys(r.Fields) {
 			key := e5Key(r, "depends on "+fld)
 			term := "p0." + fld
@@ -714,7 +742,7 @@ func e5Compare(c *Collector, r *E5Row, key, pos string, got, want *Sym, hint, wh
 		c.Ob(r.Props, "E5.decision", key, Undecided, fmt.Sprintf("%s: the code leaves the supported fragment (%s); code term: %s", what, w, clip(got.String(), 300)), pos, false)
 		return true
 	}
-	got, want = stripAsserts(got), stripAsserts(want)
+	got, want = typeSwitchNorm(stripAsserts(got)), typeSwitchNorm(stripAsserts(want))
 	got, want = canonBinders(got), canonBinders(want) // binders named by nesting depth, so that a call term taken from the code fits the table's binders
 	if w2, err := resolveAnyCalls(want, got); err != nil {
 		c.Ob(r.Props, "E5.decision", key, Violated, fmt.Sprintf("%s: %v; code term: %s", what, err, clip(got.String(), 300)), pos, false)
